@@ -137,3 +137,82 @@ Example ex_C04_embed_fish :
   end.
 Proof. vm_compute. repeat split. Qed.
 Print Assumptions ex_C04_embed_fish.
+
+(** PowerShell: the two extra hypotheses of [C04_embed_pwsh] hold for an ordinary grammar (command
+    name [cmd], ASCII texts) -- [alltables_smart_free] has a decidable form -- ... *)
+Example ex_C04_embed_pwsh_hypotheses :
+  pname_ok "cmd"
+  /\ match all_tables Pwsh exd_cdfa0 exd_om0 exd_os0 with
+     | Ok (nd, a) => alltables_smart_free a
+     | _ => False
+     end.
+Proof.
+  split; [split; [split; [discriminate | reflexivity] | reflexivity]|].
+  vm_compute all_tables. apply alltables_smart_freeb_sound. vm_compute. reflexivity.
+Qed.
+Print Assumptions ex_C04_embed_pwsh_hypotheses.
+
+(** ... and each of them is necessary.  (1) A command name with a single quote (it satisfies [name_ok]):
+    the registration line reads [-CommandName 'a'b' -ScriptBlock {], the quoted name ends at the second
+    quote, and the reader -- like PowerShell -- finds no well-formed registration: the statement list of
+    the tables has the registration of [a'b], the script has none. *)
+Definition registrations (l : list stmt) : list (list string) :=
+  flat_map (fun st => match st with SRegister r => [r] | _ => [] end) l.
+Definition descriptions_of (l : list stmt) : list (N * string) :=
+  flat_map (fun st => match st with SStr "descriptions" k d => [(k, d)] | _ => [] end) l.
+
+Theorem C04_refuted_pwsh_quote_in_name :
+  name_ok "a'b" /\ no_squote "a'b" = false
+  /\ match EmitPwsh.script_of_dfa "a'b" "sig" exd_cdfa0 exd_om0 exd_os0 [[0]], all_tables Pwsh exd_cdfa0 exd_om0 exd_os0 with
+     | Ok (s, _), Ok (nd, a) =>
+         match pscript_stmts "a'b" 0 nd a [[0]] with
+         | Ok sts => registrations sts = [["a'b"]] /\ registrations (read_stmts Pwsh "a'b" s) = []
+         | _ => False
+         end
+     | _, _ => False
+     end.
+Proof. vm_compute. repeat split; discriminate. Qed.
+Check C04_refuted_pwsh_quote_in_name :
+  name_ok "a'b" /\ no_squote "a'b" = false
+  /\ match EmitPwsh.script_of_dfa "a'b" "sig" exd_cdfa0 exd_om0 exd_os0 [[0]], all_tables Pwsh exd_cdfa0 exd_om0 exd_os0 with
+     | Ok (s, _), Ok (nd, a) =>
+         match pscript_stmts "a'b" 0 nd a [[0]] with
+         | Ok sts => registrations sts = [["a'b"]] /\ registrations (read_stmts Pwsh "a'b" s) = []
+         | _ => False
+         end
+     | _, _ => False
+     end.
+Print Assumptions C04_refuted_pwsh_quote_in_name.
+
+(** (2) A description with a smart double quote (the known finding of C07, here on the whole script):
+    the constant ends at the smart quote, the line is no well-formed entry of the table of
+    descriptions, and the description is lost: the statement list of the tables has it, the script as
+    read has not. *)
+Definition exs_descr : string := append "a" (append (String (ascii_of_nat 226) (String (ascii_of_nat 128) (String (ascii_of_nat 157) EmptyString))) "b").
+Definition exs_cdfa : cdfa := mkcdfa (mkdfa 0 [(0, [(0, 1)])] [1] [ILit "x" (Some exs_descr) 0]) [].
+Definition exs_om : list (string * string) := [("x", exs_descr)].
+
+Theorem C04_refuted_pwsh_smart_quote_script :
+  smart_free exs_descr = false
+  /\ match EmitPwsh.script_of_dfa "cmd" "sig" exs_cdfa exs_om [] [], all_tables Pwsh exs_cdfa exs_om [] with
+     | Ok (s, valid), Ok (nd, a) =>
+         valid = true
+         /\ match pscript_stmts "cmd" 0 nd a [] with
+            | Ok sts => descriptions_of sts = [(0, exs_descr)] /\ descriptions_of (read_stmts Pwsh "cmd" s) = []
+            | _ => False
+            end
+     | _, _ => False
+     end.
+Proof. vm_compute. repeat split. Qed.
+Check C04_refuted_pwsh_smart_quote_script :
+  smart_free exs_descr = false
+  /\ match EmitPwsh.script_of_dfa "cmd" "sig" exs_cdfa exs_om [] [], all_tables Pwsh exs_cdfa exs_om [] with
+     | Ok (s, valid), Ok (nd, a) =>
+         valid = true
+         /\ match pscript_stmts "cmd" 0 nd a [] with
+            | Ok sts => descriptions_of sts = [(0, exs_descr)] /\ descriptions_of (read_stmts Pwsh "cmd" s) = []
+            | _ => False
+            end
+     | _, _ => False
+     end.
+Print Assumptions C04_refuted_pwsh_smart_quote_script.
